@@ -71,6 +71,9 @@ def gen_program(rng, profile):
         gaps += [(R - E, 2), (R + E, 2), (R / 2, 1), (2 * R, 1)]
     if base == 'c10':
         gaps += [(bt, 1)]
+    if profile.endswith('-tie'):
+        # a partial batch, then several calls at the very instant its timer expires
+        gaps = [(0.0, 6), (bt, 5), (bt / 2, 2), (bt + E, 1), (2 * bt, 1)]
     nk = rng.choice([1, 2, 3]) if base == 'c11' else rng.choice([2, 3, 4])
     hot = profile.endswith('-hot')
     if hot:
@@ -104,6 +107,7 @@ def gen_program(rng, profile):
             c['delay'] = _w(rng, [(0.0, 2), (bt / 2, 3), (0.0625, 2), (0.125 + E, 2), (0.125 + bt / 2, 3), (0.1875, 2)])
         calls.append(c)
     prog['calls'] = calls
+    prog['driver'] = 'pre' if rng.random() < 0.4 else 'seq'
     # batch function behaviour
     durs = [(0.0, 4), (0.125, 3), (0.25, 2), (bt * 3, 1), (1.0, 1)]
     prog['batch_dur'] = [_w(rng, durs) for _ in range(4)]
@@ -433,6 +437,26 @@ class BatcherWorld:
                 by_tasks.append(loop.create_task(self.by_call(j, o)))
         tasks = []
         base_calls = list(self.calls)
+        if p.get('driver') == 'pre':
+            # Every arrival is a timer registered up front, i.e. *before* any timer the batcher arms later: at an exact tie
+            # between an arrival and a batcher time-out the arrival is then processed first (the sequential driver below gives
+            # the opposite order).  Both orders are legal; limits must hold under either.
+            started = loop.create_future()
+            left = [sum(1 for C in base_calls if C.spec.get('after') is None)]
+
+            def start(C):
+                tasks.append(loop.create_task(self.caller(C)))
+                left[0] -= 1
+                if left[0] == 0 and not started.done():
+                    started.set_result(None)
+            for C in base_calls:
+                if C.spec.get('after') is not None:
+                    tasks.append(loop.create_task(self.caller_after(C, base_calls[C.spec['after']])))
+                else:
+                    loop.call_at(C.at, start, C)
+            if left[0]:
+                await started
+            base_calls = []
         for C in base_calls:
             if C.spec.get('after') is not None:
                 tasks.append(loop.create_task(self.caller_after(C, base_calls[C.spec['after']])))
